@@ -59,3 +59,82 @@ Example C12_src_runs :
   g_uint_to_odd 3 [9; 0; 7] = ([9; 0; 7], 2 ^ 64 - 1) /\ g_uint_to_odd 3 [8; 1; 7] = ([8; 1; 7], 0) /\
   g_int_to_nz 2 [0; 2 ^ 63] = ([0; 2 ^ 63], 2 ^ 64 - 1) /\ g_int_to_odd 2 [2 ^ 64 - 1; 2 ^ 64 - 1] = ([2 ^ 64 - 1; 2 ^ 64 - 1], 2 ^ 64 - 1).
 Proof. vm_compute. repeat split. Qed.
+
+(* ================= Odd::<Uint<LIMBS>>::from_be_hex / from_le_hex (src/odd.rs; Src/GenWrap.v, proofs in Src/GenWrapP.v) ================= *)
+From CB Require Import Model.Conv Src.GenHex Src.GenConv Src.GenConvP.
+From CB Require Import Proofs.ConvDigitsP Proofs.ConvHexP.
+Import ListNotations.
+
+(** the source text of the Odd hex constructors is the model: it returns (the decoded limbs) exactly when the two assertions the
+    translator drops hold -- the error word of the hex loop is zero and `uint.is_odd().is_true_vartime()` -- and panics otherwise;
+    for every limb count and every string of the asserted length 16 n (which fits a usize) *)
+Theorem C12_src_odd_from_be_hex_model : forall n cs, wfd 256 cs -> length cs = (16 * n)%nat -> Z.of_nat (16 * n) < 2 ^ 64 ->
+  odd_from_be_hex n cs =
+  if (g_be_hex_err n cs =? 0) && cc_true (g_uint_is_odd n (g_odd_uint_from_be_hex n cs))
+  then Val [g_odd_uint_from_be_hex n cs] else PanicV.
+Proof. intros n cs W L HB. apply g_odd_uint_from_be_hex_model; assumption. Qed.
+Print Assumptions C12_src_odd_from_be_hex_model.
+
+Theorem C12_src_odd_from_le_hex_model : forall n cs, wfd 256 cs -> length cs = (16 * n)%nat -> Z.of_nat (16 * n) < 2 ^ 64 ->
+  odd_from_le_hex n cs =
+  if (g_le_hex_err n cs =? 0) && cc_true (g_uint_is_odd n (g_odd_uint_from_le_hex n cs))
+  then Val [g_odd_uint_from_le_hex n cs] else PanicV.
+Proof. intros n cs W L HB. apply g_odd_uint_from_le_hex_model; assumption. Qed.
+Print Assumptions C12_src_odd_from_le_hex_model.
+
+(** the decoded value is the big- / little-endian value of the hex string, and the odd assertion of the source holds iff it is odd *)
+Theorem C12_src_odd_from_be_hex : forall n cs ds, wfd 256 cs -> length cs = (16 * n)%nat -> Z.of_nat (16 * n) < 2 ^ 64 ->
+  hexvals cs = Some ds ->
+  g_be_hex_err n cs = 0 /\
+  wf (g_odd_uint_from_be_hex n cs) /\ length (g_odd_uint_from_be_hex n cs) = n /\
+  eval (g_odd_uint_from_be_hex n cs) = evalb 16 (rev ds) /\
+  cc_true (g_uint_is_odd n (g_odd_uint_from_be_hex n cs)) = Z.odd (evalb 16 (rev ds)).
+Proof.
+  intros n cs ds W L HB Hd. pose proof (from_be_hex_spec n cs W) as S. rewrite (g_uint_from_be_hex_eq n cs L HB W) in S.
+  rewrite g_odd_uint_from_be_hex_eq.
+  destruct (Z.eqb_spec (g_be_hex_err n cs) 0) as [E|E].
+  - destruct S as (_ & ds' & Hd' & H1 & H2 & H3). rewrite Hd in Hd'. injection Hd' as <-.
+    repeat split; try assumption. rewrite g_is_odd_flag by assumption. rewrite H3. reflexivity.
+  - destruct S as (_ & Hn). rewrite Hd in Hn. discriminate.
+Qed.
+Print Assumptions C12_src_odd_from_be_hex.
+
+Theorem C12_src_odd_from_le_hex : forall n cs ds, wfd 256 cs -> length cs = (16 * n)%nat -> Z.of_nat (16 * n) < 2 ^ 64 ->
+  hexvals cs = Some ds ->
+  g_le_hex_err n cs = 0 /\
+  wf (g_odd_uint_from_le_hex n cs) /\ length (g_odd_uint_from_le_hex n cs) = n /\
+  eval (g_odd_uint_from_le_hex n cs) = evalb 256 (nib_pairs ds) /\
+  cc_true (g_uint_is_odd n (g_odd_uint_from_le_hex n cs)) = Z.odd (evalb 256 (nib_pairs ds)).
+Proof.
+  intros n cs ds W L HB Hd. pose proof (from_le_hex_spec n cs W) as S. rewrite (g_uint_from_le_hex_eq n cs L HB W) in S.
+  rewrite g_odd_uint_from_le_hex_eq.
+  destruct (Z.eqb_spec (g_le_hex_err n cs) 0) as [E|E].
+  - destruct S as (_ & ds' & Hd' & H1 & H2 & H3). rewrite Hd in Hd'. injection Hd' as <-.
+    repeat split; try assumption. rewrite g_is_odd_flag by assumption. rewrite H3. reflexivity.
+  - destruct S as (_ & Hn). rewrite Hd in Hn. discriminate.
+Qed.
+Print Assumptions C12_src_odd_from_le_hex.
+
+(** a character that is not a hex digit makes the asserted error word non-zero: the constructor panics *)
+Theorem C12_src_odd_from_hex_rejects : forall n cs, wfd 256 cs -> length cs = (16 * n)%nat -> Z.of_nat (16 * n) < 2 ^ 64 ->
+  hexvals cs = None -> g_be_hex_err n cs <> 0 /\ g_le_hex_err n cs <> 0 /\ odd_from_be_hex n cs = PanicV /\ odd_from_le_hex n cs = PanicV.
+Proof.
+  intros n cs W L HB Hn.
+  pose proof (proj1 (g_be_hex_err_iff n cs W L HB)) as Hb. pose proof (proj1 (g_le_hex_err_iff n cs W L HB)) as Hl.
+  assert (Eb : g_be_hex_err n cs <> 0) by (intros E; apply Hb in E; destruct E as [ds E]; rewrite E in Hn; discriminate).
+  assert (El : g_le_hex_err n cs <> 0) by (intros E; apply Hl in E; destruct E as [ds E]; rewrite E in Hn; discriminate).
+  split; [exact Eb|]. split; [exact El|].
+  rewrite g_odd_uint_from_be_hex_model, g_odd_uint_from_le_hex_model by assumption.
+  destruct (Z.eqb_spec (g_be_hex_err n cs) 0); [contradiction|]. destruct (Z.eqb_spec (g_le_hex_err n cs) 0); [contradiction|]. split; reflexivity.
+Qed.
+Print Assumptions C12_src_odd_from_hex_rejects.
+
+(** non-vacuity: an odd and an even 2-limb string in either byte order *)
+Example C12_src_odd_hex_runs :
+  g_odd_uint_from_be_hex 2 [48; 48; 48; 48; 48; 48; 48; 48; 48; 48; 48; 48; 48; 48; 102; 102; 48; 49; 50; 51; 52; 53; 54; 55; 56; 57; 97; 98; 99; 68; 69; 70] = [81985529216486895; 255] /\
+  cc_true (g_uint_is_odd 2 (g_odd_uint_from_be_hex 2 [48; 48; 48; 48; 48; 48; 48; 48; 48; 48; 48; 48; 48; 48; 102; 102; 48; 49; 50; 51; 52; 53; 54; 55; 56; 57; 97; 98; 99; 68; 69; 70])) = true /\
+  cc_true (g_uint_is_odd 2 (g_odd_uint_from_be_hex 2 [48; 48; 48; 48; 48; 48; 48; 48; 48; 48; 48; 48; 48; 48; 102; 102; 48; 49; 50; 51; 52; 53; 54; 55; 56; 57; 97; 98; 99; 68; 69; 69])) = false /\
+  g_odd_uint_from_le_hex 2 [69; 70; 48; 48; 48; 48; 48; 48; 48; 48; 48; 48; 48; 48; 48; 48; 102; 102; 48; 48; 48; 48; 48; 48; 48; 48; 48; 48; 48; 48; 48; 48] = [239; 255] /\
+  cc_true (g_uint_is_odd 2 (g_odd_uint_from_le_hex 2 [69; 70; 48; 48; 48; 48; 48; 48; 48; 48; 48; 48; 48; 48; 48; 48; 102; 102; 48; 48; 48; 48; 48; 48; 48; 48; 48; 48; 48; 48; 48; 48])) = true /\
+  odd_from_be_hex 2 [48; 48; 48; 48; 48; 48; 48; 48; 48; 48; 48; 48; 48; 48; 102; 102; 48; 49; 50; 51; 52; 53; 54; 55; 56; 57; 97; 98; 99; 68; 69; 70] = Val [g_odd_uint_from_be_hex 2 [48; 48; 48; 48; 48; 48; 48; 48; 48; 48; 48; 48; 48; 48; 102; 102; 48; 49; 50; 51; 52; 53; 54; 55; 56; 57; 97; 98; 99; 68; 69; 70]] /\ odd_from_be_hex 2 [48; 48; 48; 48; 48; 48; 48; 48; 48; 48; 48; 48; 48; 48; 102; 102; 48; 49; 50; 51; 52; 53; 54; 55; 56; 57; 97; 98; 99; 68; 69; 69] = PanicV.
+Proof. vm_compute. repeat split. Qed.
